@@ -22,6 +22,19 @@ fn arg(args: &[String], name: &str) -> Option<String> {
     args.iter().position(|a| a == name).and_then(|i| args.get(i + 1).cloned())
 }
 
+/// The streaming body polled from inside Waker::wake (stream_engine::inline_wake_checks): harness-level
+/// checks attached to one ordinary Body::empty() case.
+fn inline_wake_case(prop: &str, cases: &mut dyn Write, meta: &mut dyn Write) {
+    if watch::gate("H:polls-from-inside-wake").is_none() {
+        return;
+    }
+    let c = once_engine::OnceCase { kind: 0, data: vec![], polls: 2, class: "H:polls-from-inside-wake".into() };
+    let checks: Vec<String> = stream_engine::inline_wake_checks().into_iter().map(|f| format!("{}:{}", prop, f)).collect();
+    let id = format!("{}-W0", prop);
+    writeln!(cases, "once {} {}", id, once_engine::run(&c).to_string()).unwrap();
+    writeln!(meta, "{}\t{}\t{}", id, c.class, checks.join(",")).unwrap();
+}
+
 fn main() {
     let args: Vec<String> = std::env::args().collect();
     if args.len() < 2 {
@@ -89,6 +102,10 @@ fn main() {
                     "C11" => gen_stream::gen_c11(&mut rng, thorough, &mut emit_stream),
                     _ => gen_stream::gen_c17(&mut rng, thorough, &mut emit_stream),
                 }
+                drop(emit_stream);
+                if prop == "C11" {
+                    inline_wake_case(&prop, &mut cases, &mut meta);
+                }
                 #[cfg(not(feature = "hooks"))]
                 if prop == "C11" {
                     eprintln!("built without the schedule engine: the concurrent part of C11 is not explored");
@@ -96,7 +113,6 @@ fn main() {
                 #[cfg(feature = "hooks")]
                 if prop == "C11" {
                     // all interleavings with a concurrently polling consumer
-                    drop(emit_stream);
                     let mut k = 0u64;
                     let mut total = 0usize;
                     let mut exhausted_all = true;
@@ -183,6 +199,7 @@ fn main() {
                             writeln!(meta, "{}\t{}\t", id, c.class).unwrap();
                         }
                     });
+                    inline_wake_case(&prop, &mut cases, &mut meta);
                     // the streaming body's hint sampled while the producer runs on another thread
                     #[cfg(feature = "hooks")]
                     {
@@ -353,6 +370,7 @@ fn main() {
                             writeln!(meta, "{}\t{}\t", id, c.class).unwrap();
                         }
                     });
+                    inline_wake_case(&prop, &mut cases, &mut meta);
                 }
                 _ => {
                     eprintln!("unknown property {}", prop);
